@@ -48,4 +48,25 @@ PROPS = {
             "panics while serving are counted but reported by C09, not here",
         ],
     },
+    "C02": {
+        "pkg": "c02",
+        "stages": [{"run": "^TestProp$", "quick": (1500, 4), "thorough": (20000, 16)}],
+        "technique": "property-based testing (rapid): conflict-free generated rule sets, instantiated paths, reference matcher for the must-match set, literal-dominance oracle, and a registration-order metamorphic relation",
+        "level_text": "Generated-input search; completeness and literal precedence are decided against an independent reference matcher, "
+                      "order independence by a differential run of the same rule set registered in a permuted order. Exploration only.",
+        "level_note": "Trusts harness/ref; '**' only generated in last position (google's restriction) so each template matches a path in at most one way; "
+                      "conflicting methods are removed by construction.",
+        "rule": "rapid draws a conflict-free rule set (1-6 methods x 1-3 bindings, '**' only last), a permutation of service registration "
+                "order plus a rotation of each method's primary binding, and 6-12 paths instantiated from templates of the set ('*' = 1 "
+                "segment, '**' = 1-4 segments over the documented path alphabet incl. single characters, pool literals and unicode; typed "
+                "variables get convertible text). Oracle: W = reference-matching bindings; if W non-empty and all captures convertible the "
+                "request must be dispatched to a method owning a non-dominated member of W with exactly the expected message; the permuted "
+                "mux must give the identical outcome. One evaluation = one request. Non-trivial = |W|>=2, or a multi-segment capture, or a "
+                "non-identity registration order; distinct = (|W|, capture shape, order class, verb, path skeleton).",
+        "assumptions": [
+            "ties between two variables at one trie node are not constrained (any non-dominated member is accepted)",
+            "a template without :verb is never required to match a path containing ':'",
+            "requests whose captures are not convertible for every matching rule are skipped for completeness (property precondition)",
+        ],
+    },
 }
